@@ -17,7 +17,7 @@ RULE = ("(a) random programs x wild renderings (blank lines, comment lines, trai
         "raw line breaks inside quoted strings) x eol in {LF, CRLF, CR} x parser histories of 0-3 earlier texts; (b) every fault kind "
         "x random position in random valid EEMS models, via API and CLI; distinct by (eol, history kinds, node kinds) / (fault kind, "
         "command, parameter, spread)")
-REQUIRED_COUNTERS = ["tree_nodes_compared", "histories_with_reuse", "fault_linenos_checked", "cli_marker_lines_checked"]
+REQUIRED_COUNTERS = ["tree_nodes_compared", "histories_with_reuse", "fault_linenos_checked", "cli_marker_lines_checked", "eems2_fault_linenos_checked"]
 ASSUMPTIONS = ["the head 'Result = Command(' is kept on one line (the statement says where a node starts; the code reports the command-name token)",
                "for a fault inside a multi-line list both the argument's first line and the element's own line are accepted",
                "errors raised during execution with lineno None are not judged", "CR-only texts are generated without comments"]
@@ -40,16 +40,21 @@ def cases(ctx):
         text = text.replace("\n", eol)
         hist = []
         for _ in range(rng.choice([0, 0, 1, 2, 3])):
-            k = rng.choice(["other", "v2", "bad", "same"])
+            k = rng.choice(["other", "v2", "bad", "same", "shifted", "shifted"])
             if k == "other":
                 hist.append(["other", syntax.render(syntax.gen_program(rng, max_cmds=3), random.Random(rng.randrange(10 ** 9)), "wild")])
             elif k == "v2":
                 hist.append(["v2", V2_TEXT])
             elif k == "bad":
                 hist.append(["bad", BAD_TEXT])
+            elif k == "shifted":
+                # the very same program with a different number of leading blank / comment lines
+                hist.append(["shifted", rng.choice(["\n", "\n\n\n", "# moved\n\n", "  \n"]).replace("\n", eol if eol != "\r" or True else eol) + text.lstrip("\r\n \t")])
             else:
                 hist.append(["same", text])
         yield {"kind": "tree", "prog": prog, "text": text, "eol": {"\n": "lf", "\r\n": "crlf", "\r": "cr"}[eol], "history": hist}
+    for i in range(ctx.n(30, 600)):
+        yield {"kind": "v2fault", "fault": ["unknown-command", "missing-param", "duplicate-result"][i % 3], "rseed": rng.randrange(10 ** 9)}
     req = None
     for i in range(ctx.n(600, 30000)):
         m = models.gen_model(rng, n_ops=rng.randint(1, 6), sinks=True)
@@ -255,7 +260,50 @@ def _check_cli(ctx, model, text, ok_lines, exp):
         ctx.fail("cli:%s:marker-on-wrong-line" % exp["fault"], {"marked": marks[0][:120], "acceptable_source_lines": [x[:120] for x in ok_src]})
 
 
+def run_v2fault(ctx, case):
+    """Faults in a command written in EEMS 2.0 syntax (no 'Result ='), spread over several lines: the error must carry the
+    line on which the command starts."""
+    from mpilot.program import Program
+    from mpilot.exceptions import MPilotError
+    rng = random.Random(case["rseed"])
+    d = ctx.scratch()
+    with open(os.path.join(d, "in.csv"), "w") as f:
+        f.write("X0,X1\n1,2\n3,4\n5,7\n")
+    pre = rng.choice(["", "\n", "# header\n\n"])
+    lines = pre.split("\n")[:-1] if pre else []
+    lines += ['READ(InFileName = "in.csv",', '     InFieldName = X0)', 'READ(InFileName = "in.csv",', '', '     InFieldName = X1,', '     NewFieldName = B)']
+    start = len(lines) + 1
+    fault = case["fault"]
+    if fault == "unknown-command":
+        lines += ['NOSUCHCMD(', '    InFieldName = X0,', '    # comment', '    NewFieldName = Out1', ')']
+        want = "CommandDoesNotExist"
+    elif fault == "missing-param":
+        lines += ['WTDSUM(', '    InFieldNames = [X0, B],', '', '    NewFieldName = Out1', ')']
+        want = "MissingParameters"
+    else:
+        lines += ['COPYFIELD(', '    InFieldName = X0,', '    NewFieldName =', '        B', ')']
+        want = "DuplicateResult"
+    text = "\n".join(lines)
+    ctx.feature(("v2fault", fault, bool(pre)))
+    err = None
+    try:
+        Program.from_source(text, working_dir=d).run()
+    except Exception as e:
+        err = e
+    if err is None or type(err).__name__ != want:
+        ctx.dontcare("EEMS 2.0 fault %s gave %s" % (fault, type(err).__name__ if err else "no error"))
+        return
+    ctx.count("fault_linenos_checked")
+    ctx.count("eems2_fault_linenos_checked")
+    if getattr(err, "lineno", None) != start:
+        ctx.fail("fault:eems2-%s:lineno-is-not-the-command-line" % fault, {"got": getattr(err, "lineno", None), "want": start, "text": text})
+    _check_cli(ctx, {"table": {"cols": {"X0": {"data": [1, 3, 5], "integer": True}, "X1": {"data": [2, 4, 7], "integer": True}}, "nrows": 3, "missing": None, "file": "in.csv"}},
+               text, {start}, {"fault": "eems2-" + fault})
+
+
 def run_case(ctx, case):
     if case["kind"] == "tree":
         return run_tree(ctx, case)
+    if case["kind"] == "v2fault":
+        return run_v2fault(ctx, case)
     return run_fault(ctx, case)
